@@ -1,5 +1,6 @@
 import Okane.Lemmas.C13Perm
 import Okane.Lemmas.C13CmdFine
+import Okane.Lemmas.CmdTextEq
 /-!
 # C13 — same input, same output: runs are deterministic
 
@@ -752,4 +753,89 @@ example : cmdText (bkErrText (fun a b => decide (a ≤ b)) showNat') (balanceLin
     id showNat' {} lid.2.1 lrev.2.1 lid.2.2 lrev.2.2 exBad
 
 end Commands
+
+/-! ## The text the binary prints (`Model/CmdText.lean`, `Lemmas/CmdTextEq.lean`)
+
+`Okane.CmdText.run cmd es` is the executable function `drv c13 cmd` runs: the standard output of `okane balance
+[--start ..] [--end ..]`, `okane register [ACCOUNT]`, `okane accounts` on success, and on a book-keeping error the index
+of the offending entry with the title of the diagnostic (the Rust `#[error]` text).  `bin/check C13` compares it with
+standard output / standard error / exit status of the real binary on every generated ledger (byte for byte outside
+numerals; a numeral is a hole carrying the exact value, because the report layer of the model has no decimal scale).
+The theorems: that function is the command model under **every** layout history (`Layouts`: a re-layout of every hash
+map after every entry and after every posting), so the text compared with the binary is the text all the statements
+above are about; and the statements `C13_balance` / `C13_register` / `C13_accounts` hold of the real text. -/
+section CommandText
+open Okane.CmdText
+
+/-- **C13_balance_text.**  `okane balance [--start ..] [--end ..]` with the real messages: the text is the same for
+every layout history. -/
+theorem C13_balance_text (r : DateRange) :
+    C13_balance (Orders := Layouts) (Input := List Entry)
+      (fun l es => textScr (balanceLines leS leS id showEntry r) l.1.1 l.1.2 es) :=
+  fun l₁ l₂ es => balanceText_det r l₁.2.1 l₂.2.1 l₁.2.2 l₂.2.2 es
+
+/-- … and it is what the driver computes without any layout. -/
+theorem C13_balance_text_run (r : DateRange) (l : Layouts) (es : List Entry) :
+    CmdText.run (.balance r) es = textScr (balanceLines leS leS id showEntry r) l.1.1 l.1.2 es :=
+  run_balance_layouts r l.2.1 l.2.2 es
+
+/-- **C13_register_text.** -/
+theorem C13_register_text (acct : Option String) :
+    C13_register (Orders := Layouts) (Input := List Entry)
+      (fun l es => textScr (registerLines leS id showEntry acct) l.1.1 l.1.2 es) :=
+  fun l₁ l₂ es => registerText_det acct l₁.2.1 l₂.2.1 l₁.2.2 l₂.2.2 es
+
+theorem C13_register_text_run (acct : Option String) (l : Layouts) (es : List Entry) :
+    CmdText.run (.register acct) es = textScr (registerLines leS id showEntry acct) l.1.1 l.1.2 es :=
+  run_register_layouts acct l.2.1 l.2.2 es
+
+/-- **C13_accounts_text**: `okane accounts` (the scan of `report::accounts`) under every layout history of the intern
+store prints what the driver computes. -/
+theorem C13_accounts_text_run (σ : { σ : Nat → Store → Store // StoreRelayout σ }) (es : List Entry) :
+    CmdText.run .accounts es = .ok (unlines (accountsScanCmd leS σ.1 es)) := run_accounts_layouts σ.2 es
+
+/-- the commands of section Commands (abstract error text) and `run` (Rust messages): same standard output, same
+failing entry, same panic site. -/
+theorem C13_balance_cmd_run (r : DateRange) (π : { π : Nat → ProcState → ProcState // Relayout π }) (es : List Entry) :
+    errIndex (CmdText.run (.balance r) es) = errIndex ((balanceCmd leS leS id showEntry r π.1 es).map' unlines) :=
+  run_balance_cmd r π.2 es
+
+theorem C13_register_cmd_run (acct : Option String) (π : { π : Nat → ProcState → ProcState // Relayout π })
+    (es : List Entry) :
+    errIndex (CmdText.run (.register acct) es) = errIndex ((registerCmd leS id showEntry acct π.1 es).map' unlines) :=
+  run_register_cmd acct π.2 es
+
+/-- the real messages of related errors are the same text. -/
+theorem C13_process_error_message (es : List Entry) {st st' : ProcState} (h : st ≈ₚ st') (i : Nat) {x x' : Nat × BkErrS}
+    (hx : processFrom st i es = .err x) (hx' : processFrom st' i es = .err x') :
+    x.1 = x'.1 ∧ bkErrMsg x.2 = bkErrMsg x'.2 := by
+  have := C13_process es h i
+  rw [hx, hx'] at this
+  exact ⟨this.1, bkErrMsg_meq this.2⟩
+
+/-! non-vacuity: the layout histories that reverse every map after every entry and every posting; the ledgers of
+section Commands (three commodities in one account, an alias, a format; an unbalanced three-commodity transaction,
+whose residual the two runs hold in different orders: see the `example`s there). -/
+example : CmdText.run (.balance {}) exLedger =
+    textScr (balanceLines leS leS id showEntry {}) lrev.1.1 lrev.1.2 exLedger := C13_balance_text_run {} lrev exLedger
+
+example : CmdText.run (.balance ⟨some ⟨2024, 1, 2⟩, none⟩) exBad =
+    textScr (balanceLines leS leS id showEntry ⟨some ⟨2024, 1, 2⟩, none⟩) lrev.1.1 lrev.1.2 exBad :=
+  C13_balance_text_run _ lrev exBad
+
+example : textScr (registerLines leS id showEntry (some "Assets:Bank")) lid.1.1 lid.1.2 exLedger =
+    textScr (registerLines leS id showEntry (some "Assets:Bank")) lrev.1.1 lrev.1.2 exLedger :=
+  C13_register_text (some "Assets:Bank") lid lrev exLedger
+
+example : CmdText.run .accounts exLedger =
+    .ok (unlines (accountsScanCmd leS (fun _ s => ⟨s.recs.reverse⟩) exLedger)) :=
+  C13_accounts_text_run ⟨_, storeRelayout_rev⟩ exLedger
+
+/-- the run on `exBad` really is an error at entry 0 carrying a three-commodity residual (so the error branch of the
+statements is inhabited), and the run on `exLedger` succeeds. -/
+example : (match process exBad with | .err (0, .unbalanced r) => decide (r.length = 3) | _ => false) = true := by
+  decide +kernel
+example : (process exLedger).isOk = true := by decide +kernel
+
+end CommandText
 end Okane.C13
